@@ -63,10 +63,27 @@ def journal_entity_provenance(ctx, rep, rid, sites, only=None):
             if not (n_.endswith('_id') or n_ in ('name', 'username')):
                 continue
             f_ = canon(v_, 0, 2)
-            ok = bool(re.search(r'\b' + re.escape(n_) + r'\b', f_)) and 'get_user_id' not in f_
+            # the caller's own identity (session / JWT identity) is never the entity a command names
+            ok = bool(re.search(r'\b' + re.escape(n_) + r'\b', f_)) and 'get_user_id' not in f_ and not re.search(r'\b(identity|session)\b', f_)
             rep.ob(rid, fn, '%s.%s from the request' % (variant, n_), ok, c.where(), f_[:80] if ok else
                    'the journalled %s names `%s` as its %s, not the %s of the request: replay applies the command to another entity than the one it was performed on' % (variant, f_[:80], n_, n_))
 
+
+
+def refused_requests_leave_no_journal_entry(ctx, rep, rid):
+    """shared with C09: replay applies journalled commands without any permission check, so a command must reach the
+    journal only after the System operation that authorises and performs it has succeeded"""
+    rep.rule(rid, 'a refused request leaves no trace in the journal: in every handler the journal append is dominated by the success edge of the System operation that authenticates, authorises and performs the command (replay has no permission check: a journalled DeleteUser of a refused request takes effect at the next restart)', floor=38, analysis='A2')
+    for d, b, c in journalling_sites(ctx):
+        fn = ctx.user_fn_of(d)
+        if fn == SYS + '::load_users':
+            continue
+        variant, ve = entry_variant(b, c)
+        if variant is None:
+            continue
+        muts = [m for m in system_ops(ctx, b) if success_dominates(b, m, c.bb)]
+        rep.ob(rid, fn, variant + ' journalled after it was authorised and performed', bool(muts), c.where(), None if muts else
+               'the journal append is not dominated by the success edge of any System operation: the command is journalled although it may be refused')
 
 
 def journalled_decoders_do_not_validate(ctx, rep, rid):
@@ -298,6 +315,24 @@ def run(ctx, rep):
 
     # ------------------------------------------------------------ R05.q replay numbers partitions as the run time does
     replay_partition_numbering(ctx, rep, 'R05.q')
+
+    # ------------------------------------------------------------ R05.r a refused create_user consumes no user id
+    rep.rule('R05.r', 'user ids are allocated after validation: no refusal of create_user (name taken, limit reached) is reachable once USER_ID has been advanced — the journalled CreateUser carries no id and replay numbers users gap-free, so an id burnt by a refused request makes every later user differ after a restart', floor=2, analysis='A2 ordering')
+    cub = ctx.fn_body('server::streaming::systems::system::System::create_user')
+    adv = [c for c in cub.calls if c.name.endswith('Atomic::fetch_add') and is_user_call(c) and canon(cub.pexpr_operand(c.args[0], 0, frozenset(), (c.bb, 't')), 0, 1).startswith('{alloc')]   # the static USER_ID (a static is an allocation in MIR, its name is not kept)
+    if not adv:
+        rep.anchor_lost('R05.r', 'USER_ID.fetch_add in System::create_user')
+    for c in adv:
+        after = set()
+        for x in cub.succ(c.bb):
+            after |= cub.reachable(x)
+        for blk in sorted(cub.reach):
+            for s_ in cub.stmts(blk):
+                rv_ = s_.get('rv')
+                if rv_ and rv_['r'] == 'agg' and rv_.get('adt') == 'iggy::error::IggyError' and rv_['variant'] in ('UserAlreadyExists', 'UsersLimitReached'):
+                    ok = blk not in after
+                    rep.ob('R05.r', 'server::streaming::systems::system::System::create_user', rv_['variant'] + ' before the id is taken', ok, '%s:%s' % (cub.file, s_.get('ln')), None if ok else
+                           '%s can be returned after USER_ID was advanced: the refused request has consumed an id that replay will hand to the next user' % rv_['variant'])
 
     # ------------------------------------------------------------ R05.e start-up deletes only what replay does not know
     rep.rule('R05.e', 'start-up removes a data directory only on the "not found in replayed state" edge', floor=2, analysis='A3')
